@@ -14,6 +14,11 @@ Theorem C13_failure_touches_no_final :
   forall (cap : nat) (L : N) (ws : list OutProto.wr) (rows : list (nat * bytes)) (trace : list OutProto.osop) (s : OutProto.fs), OutProto.run cap L ws rows = (trace, 1) -> (forall f : OutProto.name, In f (OutProto.finals ws) -> ~ In f (OutProto.tmps ws)) -> forall f : OutProto.name, In f (OutProto.finals ws) -> OutProto.fs_get f (OutProto.apply_trace s trace) = OutProto.fs_get f s.
 Proof. exact OutProto.failure_no_final. Qed.
 
+Theorem C13_result_independent_of_folder_content :
+  forall (cap : nat) (L : N) (ws : list OutProto.wr) (rows : list (nat * bytes)) (trace : list OutProto.osop) (s : OutProto.fs), (0 < cap)%nat -> OutProto.run cap L ws rows = (trace, 0) -> NoDup (OutProto.tmps ws ++ OutProto.finals ws) -> OutProto.fresh_writers ws -> (forall r : nat * bytes, In r rows -> (fst r < length ws)%nat) -> forall j : nat, (j < length ws)%nat -> OutProto.fs_get (nth j (OutProto.finals ws) 0) (OutProto.apply_trace s trace) = Some (OutProto.data_for j rows) /\ OutProto.fs_get (nth j (OutProto.tmps ws) 0) (OutProto.apply_trace s trace) = None.
+Proof. exact OutProto.success_content. Qed.
+
 Print Assumptions C13_indexed_collect_any_order.
 Print Assumptions C13_prestate_independent.
 Print Assumptions C13_failure_touches_no_final.
+Print Assumptions C13_result_independent_of_folder_content.
